@@ -79,6 +79,7 @@ def run():
     rnd = random.Random(vlib.seed() * 3001 + 12)
     wd = vlib.workdir(PID)
     findings = vlib.load_findings(PID)
+    finding_ids = {f["id"] for f in findings}
     out = vlib.Outcome(PID)
     # ---- E: the rule table machine, explored by TLC
     cfg = os.path.join(wd, "MC_RuleTable.cfg")
@@ -112,6 +113,10 @@ def run():
         else:
             e = obs["err"]
             m = re.match(r'rule "(.*)" is already defined', e.get("short", ""))
+            if not m and re.search(r"(?m)^\${1,2}[A-Za-z0-9_.@-]*<", text) and "C03-socket-generics" in finding_ids:
+                # a socket with generic parameters ('$s<T> //= ...') is rejected by the parser: listed under C03
+                out.known_hit("C03-socket-generics")
+                continue
             if not m:
                 out.violation("parse-error-other", {"property": PID, "cddl": text, "observed": e, "expected": g["err"],
                                                     "spec": "documents of MC_RuleTable are syntactically valid: only the duplicate error may occur"})
